@@ -8,12 +8,12 @@ import re
 from ..cfg import Node, walk_no_nested
 from ..constfold import Folder, RegexConst, Unknown
 from ..dataflow import bind_call, chain_key, fmt_origin, origins
-from ..decide import Decider, LoopFacts, role_of, roots_of
+from ..decide import Decider, LoopFacts, expand_expr, role_of, roots_of
 from ..loader import AnalysisError, ConstInfo, FuncInfo
 from ..regexlang import Regex, included
 from ..report import Ctx
 from ..taint import Taint
-from .common import all_guards, call_name, direct_guards, factory_closure, norm, reachable_functions, where
+from .common import all_guards, base_call_predicate, call_name, direct_guards, factory_closure, norm, reachable_functions, where
 from .render import LOSSY_CALLS, LOSSY_METHODS, get_model
 from .wrap import LW, TH, TW, sentence_wrapper, width_wrapper
 
@@ -288,41 +288,62 @@ def check_hard_break_decorator(ctx: Ctx) -> None:
     fac = repo.func(f"{LW}:_add_markdown_hard_break_handling")
     w = factory_closure(prog, fac)
     flow = prog.flow(w)
-    appends = [(n, c) for n, c in flow.all_calls() if isinstance(c.func, ast.Attribute) and c.func.attr == "append" and c.args]
-    ctx.require("R-HARDBREAK", "segment appends in the hard-break decorator", len(appends), 1)
-    heads = [h for h in flow.cfg.nodes if h.kind == "for" and any(n in flow.loop_body_nodes(h) for n, _c in appends)]
-    ctx.require("R-HARDBREAK", "segment loop in the hard-break decorator", len(heads), 1)
-    base_params = set(fac.params)
-    for h in heads:
-        facts = LoopFacts(prog, w, h)
-        got: dict[bool, set] = {}
-        for last in (True, False):
-            la = facts.last_atom(last)
+    is_base_call = base_call_predicate(prog, fac, w)
 
-            def value_leaf(cur: FuncInfo, e: ast.AST, aliases: frozenset):
-                if isinstance(e, ast.Call) and isinstance(e.func, ast.Name) and e.func.id in base_params:
-                    return "SEG"
-                return None
+    def value_leaf(cur: FuncInfo, e: ast.AST, aliases: frozenset):
+        return "SEG" if isinstance(e, ast.Call) and is_base_call(e) else None
 
-            dec = Decider(prog, lambda leaf, _al, la=la: la(leaf), value_leaf=value_leaf)
-            vals: set = set()
-            for be in [x for x, lab in h.succ if lab == "iter"]:
-                for _end, _env, _benv, outs in dec.walk(w, be, lambda n, h=h: n is h, frozenset()):
-                    for o in outs:
-                        if isinstance(o, frozenset):
-                            vals |= o
-            got[last] = vals
-        ctx.note("hard_break_segments", {("last" if k else "not last"): sorted(map(str, v)) for k, v in got.items()})
-        ctx.ob("R-HARDBREAK", f"{w.qual} :: last segment appended without marker", got[True] == {"SEG"},
-               f"the last segment ends the paragraph and must not get a hard-break backslash; on the last iteration the loop appends {sorted(map(str, got[True]))}",
-               where(w, h))
-        ctx.ob("R-HARDBREAK", f"{w.qual} :: non-last segment ends with a backslash", got[False] == {("cat", "SEG", "\\")},
-               "each hard break of the source (backslash-newline or two spaces) must be re-emitted as backslash + newline; on the other iterations "
-               f"the loop appends {sorted(map(str, got[False]))}", where(w, h))
-    joins = [r for r in flow.cfg.returns() if isinstance(r.ast.value, ast.Call) and isinstance(r.ast.value.func, ast.Attribute)
-             and r.ast.value.func.attr == "join" and isinstance(r.ast.value.func.value, ast.Constant)]
-    ctx.ob("R-HARDBREAK", f"{w.qual} :: segments rejoined with a newline", any(r.ast.value.func.value.value == "\n" for r in joins),
-           "the wrapped segments are joined by newline so that `\\\\` + newline forms the hard break", where(w, w.node))
+    # the multi-segment result: SEP.join(parts)
+    joins = [(r, r.ast.value) for r in flow.cfg.returns() if isinstance(r.ast.value, ast.Call) and isinstance(r.ast.value.func, ast.Attribute)
+             and r.ast.value.func.attr == "join" and isinstance(r.ast.value.func.value, ast.Constant) and len(r.ast.value.args) == 1]
+    ctx.require("R-HARDBREAK", "join of the wrapped segments in the hard-break decorator", len(joins), 1)
+    for r, jc in joins:
+        sep = jc.func.value.value
+        parts_e = expand_expr(prog, w, jc.args[0], r, strict=False)
+        if isinstance(parts_e, ast.Name):
+            pdefs = flow.reaching(r, parts_e.id)
+            if len(pdefs) == 1 and pdefs[0].kind == "assign" and isinstance(pdefs[0].value, (ast.ListComp, ast.GeneratorExp)):
+                parts_e = pdefs[0].value
+        got: dict[bool, set] = {True: set(), False: set()}
+        if isinstance(parts_e, (ast.ListComp, ast.GeneratorExp)) and len(parts_e.generators) == 1:
+            facts = LoopFacts.of_comprehension(parts_e.generators[0])
+            for last in (True, False):
+                la = facts.last_atom(last)
+                dec = Decider(prog, lambda leaf, _al, la=la: la(leaf), value_leaf=value_leaf)
+                got[last] = set(dec.ev(w, parts_e.elt, {}, {}, frozenset(), 0))
+        else:
+            appends = [(n, c) for n, c in flow.all_calls() if isinstance(c.func, ast.Attribute) and c.func.attr == "append" and c.args]
+            heads = [h for h in flow.cfg.nodes if h.kind == "for" and any(n in flow.loop_body_nodes(h) for n, _c in appends)]
+            ctx.require("R-HARDBREAK", "segment loop in the hard-break decorator", len(heads), 1)
+            for h in heads:
+                facts = LoopFacts(prog, w, h)
+                for last in (True, False):
+                    la = facts.last_atom(last)
+                    dec = Decider(prog, lambda leaf, _al, la=la: la(leaf), value_leaf=value_leaf)
+                    for be in [x for x, lab in h.succ if lab == "iter"]:
+                        for _end, _env, _benv, outs in dec.walk(w, be, lambda n, h=h: n is h, frozenset()):
+                            for o in outs:
+                                if isinstance(o, frozenset):
+                                    got[last] |= o
+
+        def suffix(v) -> str | None:
+            if v == "SEG":
+                return ""
+            if isinstance(v, tuple) and len(v) == 3 and v[0] == "cat" and v[1] == "SEG" and type(v[2]) is str:
+                return v[2]
+            return None
+
+        ctx.note("hard_break_segments", {"separator": sep, "last": sorted(map(str, got[True])), "not last": sorted(map(str, got[False]))})
+        s_last = {suffix(v) for v in got[True]}
+        s_other = {suffix(v) for v in got[False]}
+        ctx.ob("R-HARDBREAK", f"{w.qual} :: last segment appended without marker", s_last == {""},
+               f"the last segment ends the paragraph and must not get a hard-break backslash; the last part is {sorted(map(str, got[True]))}",
+               where(w, r))
+        ctx.ob("R-HARDBREAK", f"{w.qual} :: non-last segment ends with a backslash", len(s_other) == 1 and None not in s_other and next(iter(s_other)) + sep == "\\\n",
+               "each hard break of the source (backslash-newline or two spaces) must be re-emitted as backslash + newline; the other parts are "
+               f"{sorted(map(str, got[False]))}, joined by {sep!r}", where(w, r))
+        ctx.ob("R-HARDBREAK", f"{w.qual} :: segments rejoined with a newline", sep.endswith("\n") and sep in ("\n", "\\\n"),
+               "the wrapped segments are joined by newline so that `\\` + newline forms the hard break", where(w, r))
     # the split pattern matches both hard-break spellings
     from ..constfold import Folder, Unknown
 
